@@ -2,12 +2,17 @@
 from __future__ import annotations
 
 NS = "Template:"
-EXH_NAMES = ["A", "B b", "Éc"]
+EXH_NAMES = ["A", "B b", "E\u0301c"]     # the third title is NOT in Unicode NFC (E + combining acute)
 
 # bare titles as stored; deliberately hostile spellings (blank, unicode, lower-case stored initial and its
 # upper-case twin, subpage, quote characters, percent, digit initial, inner colon, double blank)
 POOL = ["A", "B b", "c", "C", "Éa", "ж", "中文", "en-noun", "D/doc", "O'Neil", 'x"y', "100%", "1st", "Q:r",
-        "Long  name", "Zz top", "é", "Ωmega"]
+        "Long  name", "Zz top", "é", "Ωmega",
+        # titles that are NOT in Unicode normalisation form C, stored verbatim and used with the same code points:
+        # base letter + combining mark, wrong combining order, singletons that only exist decomposed/compat
+        # (OHM SIGN, ANGSTROM SIGN), conjoining Hangul jamo, a lower-case stored decomposed initial
+        "Cafe\u0301 head", "Re\u0301sume\u0301", "\u2126hm", "\u212bngstrom", "\u1112\u1161\u11ab\u1100\u1173\u11af",
+        "Da\u0307\u0323t", "e\u0301t"]
 ABSENT = ["Nowhere", "Gone away", "zz"]
 
 
